@@ -46,6 +46,9 @@ pub fn check_basis(n: usize, f: &[i64], g: &[i64], cf: &[i64], cg: &[i64], leave
 
 impl Sub for Trapdoor {
     type Case = KeyCase;
+    fn restrictable(&self) -> bool {
+        true
+    }
     fn name(&self) -> &'static str {
         "keygen_trapdoor"
     }
